@@ -145,12 +145,21 @@ Proof.
 Qed.
 
 (* ------------------------------------------------------------------ sums and dot products over RN *)
+(* [ring] infers its carrier from sub-terms: hide the ones whose type is printed as [T RN] *)
+Ltac hideT :=
+  repeat match goal with
+  | |- context [tsum RN ?l] => let x := fresh "x" in pose (x := (tsum RN l : R)); change (tsum RN l) with x; clearbody x
+  | |- context [dot RN ?u ?v] => let x := fresh "x" in pose (x := (dot RN u v : R)); change (dot RN u v) with x; clearbody x
+  | |- context [sumf RN ?n ?f] => let x := fresh "x" in pose (x := (sumf RN n f : R)); change (sumf RN n f) with x; clearbody x
+  | |- context [nth0 RN ?i ?l] => let x := fresh "x" in pose (x := (nth0 RN i l : R)); change (nth0 RN i l) with x; clearbody x
+  end.
+Ltac rring := rn_simpl; hideT; ring.
 Lemma tsum_app (u v : list R) : tsum RN (u ++ v) = tsum RN u + tsum RN v.
-Proof. induction u as [|a u IH]; simpl; rn_simpl; [ring|rewrite IH; ring]. Qed.
+Proof. induction u as [|a u IH]; simpl; rn_simpl; [rring|rewrite IH; rring]. Qed.
 Lemma sumf_Rsum n (f : nat -> R) : sumf RN n f = Rsum n f.
 Proof.
   unfold sumf. induction n as [|n IH]; [reflexivity|].
-  rewrite seq_S, map_app, tsum_app, IH. simpl. rn_simpl. ring.
+  rewrite seq_S, map_app, tsum_app, IH. simpl. rring.
 Qed.
 Lemma dot_nil_l (v : list R) : dot RN [] v = 0.
 Proof. reflexivity. Qed.
@@ -160,8 +169,8 @@ Lemma dot_app (u1 u2 v1 v2 : list R) :
   length u1 = length v1 -> dot RN (u1 ++ u2) (v1 ++ v2) = dot RN u1 v1 + dot RN u2 v2.
 Proof.
   revert v1; induction u1 as [|a u1 IH]; intros [|b v1] H; simpl in H; try discriminate.
-  - simpl. rewrite dot_nil_l. ring.
-  - simpl app. rewrite !dot_cons, IH by lia. ring.
+  - simpl. rewrite dot_nil_l. rring.
+  - simpl app. rewrite !dot_cons, IH by lia. rring.
 Qed.
 (* dot product as an indexed sum *)
 Lemma dot_Rsum (u v : list R) n :
@@ -176,7 +185,7 @@ Proof.
     rewrite (IH u' v') by lia.
     rewrite !app_nth2 by lia. replace (n - length u')%nat with 0%nat by lia.
     replace (n - length v')%nat with 0%nat by lia. simpl nth.
-    rewrite dot_cons, dot_nil_l. f_equal; [|ring].
+    rewrite dot_cons, dot_nil_l. f_equal; [|rring].
     apply Rsum_ext; intros i Hi. rewrite !app_nth1 by lia. reflexivity.
 Qed.
 (* blocks of pairwise equal length: the dot product of the concatenations is the sum of the block dot products *)
@@ -199,5 +208,112 @@ Lemma dot_map_seq (f g : nat -> R) n :
 Proof.
   induction n as [|n IH]; [reflexivity|].
   rewrite seq_S, !map_app. simpl map. rewrite dot_app by (rewrite !map_length; reflexivity).
-  rewrite IH, dot_cons, dot_nil_l. simpl. ring.
+  rewrite IH, dot_cons, dot_nil_l. simpl. rring.
+Qed.
+
+Lemma nth_map_lt {A B} (f : A -> B) l i da db : (i < length l)%nat -> nth i (map f l) db = f (nth i l da).
+Proof. intros H. rewrite (nth_indep _ db (f da)) by (rewrite map_length; exact H). apply map_nth. Qed.
+
+(* ==================================================================== dense / direct *)
+Definition bias_at (b : option (list R)) (o : nat) : R :=
+  match b with None => 0 | Some bv => nth o bv 0 end.
+
+Lemma linear_length (x W : list (list R)) b : length (linear RN x W b) = length x.
+Proof. unfold linear. apply map_length. Qed.
+Lemma linear_row_length (x W : list (list R)) b row :
+  (forall bv, b = Some bv -> length bv = length W) -> In row (linear RN x W b) -> length row = length W.
+Proof.
+  intros Hb Hin. unfold linear in Hin. apply in_map_iff in Hin. destruct Hin as [xr [<- _]].
+  destruct b as [bv|]; [|apply map_length].
+  rewrite map2_length, map_length, (Hb bv eq_refl). apply Nat.min_id.
+Qed.
+Lemma linear_nth (x W : list (list R)) b r o :
+  (r < length x)%nat -> (o < length W)%nat -> (forall bv, b = Some bv -> length bv = length W) ->
+  nth o (nth r (linear RN x W b) []) 0 = dot RN (nth r x []) (nth o W []) + bias_at b o.
+Proof.
+  intros Hr Ho Hb. unfold linear. rewrite (nth_map_lt _ _ _ []) by exact Hr.
+  destruct b as [bv|]; simpl bias_at.
+  - pose proof (Hb bv eq_refl) as Hbl. rn_simpl.
+    rewrite (map2_nth _ _ _ _ 0 0) by (rewrite ?map_length; lia).
+    rewrite (nth_map_lt _ _ _ []) by exact Ho. reflexivity.
+  - rewrite (nth_map_lt _ _ _ []) by exact Ho. rn_simpl. lra.
+Qed.
+
+(* LinearDense.forward = x W^T + b, element by element over flat row-major indices, and the result has the
+   advertised batched output shape *)
+Theorem dense_forward_spec (c : dense RN) (x out : tensor RN) :
+  let I := prodn (d_in RN c) in let O := prodn (d_out RN c) in let B := d_B RN c in
+  dense_forward RN c x = Ok out ->
+  length (tdata x) = (B * I)%nat ->
+  length (d_w RN c) = O -> (forall wr, In wr (d_w RN c) -> length wr = I) ->
+  (forall bv, d_b RN c = Some bv -> length bv = O) -> (0 < O)%nat ->
+  tshape out = B :: d_out RN c /\ length (tdata out) = (B * O)%nat /\
+  forall r o, (r < B)%nat -> (o < O)%nat ->
+    nth (r * O + o) (tdata out) 0 =
+    Rsum I (fun i => nth (r * I + i) (tdata x) 0 * nth i (nth o (d_w RN c) []) 0) + bias_at (d_b RN c) o.
+Proof.
+  intros I O B Hf Hx HW HWr Hb HO. unfold dense_forward in Hf. fold I O in Hf.
+  destruct (tshape x) as [|b0 rest]; [discriminate|].
+  destruct ((b0 =? d_B RN c) && (prodn rest =? I)) eqn:E; simpl in Hf; [|discriminate].
+  apply andb_true_iff in E. destruct E as [E1 _]. apply Nat.eqb_eq in E1. fold B in E1. subst b0.
+  injection Hf as <-. simpl tshape. simpl tdata.
+  set (cur := chunk I B _).
+  assert (Hrows : forall row, In row (linear RN cur (d_w RN c) (d_b RN c)) -> length row = O).
+  { intros row Hin. rewrite <- HW. eapply linear_row_length; [|exact Hin]. intros bv Hbv. transitivity O; [exact (Hb bv Hbv)|symmetry; exact HW]. }
+  rn_simpl. split; [|split].
+  - unfold view_shape. fold O. rewrite Nat.div_mul by lia. reflexivity.
+  - rewrite (concat_length_uniform _ O Hrows), linear_length. unfold cur. rewrite chunk_length. reflexivity.
+  - intros r o Hr Ho.
+    assert (Hlc : length cur = B) by (unfold cur; apply chunk_length).
+    rewrite (concat_nth_uniform _ O); [| exact Hrows | rewrite linear_length, Hlc; exact Hr | exact Ho].
+    rewrite linear_nth; [| rewrite Hlc; exact Hr | rewrite HW; exact Ho
+                         | intros bv Hbv; transitivity O; [exact (Hb bv Hbv)|symmetry; exact HW]].
+    f_equal.
+    rewrite (dot_Rsum _ _ I).
+    + apply Rsum_ext; intros i Hi. unfold cur. rewrite chunk_nth_nth by assumption. reflexivity.
+    + unfold cur. apply chunk_row_length; [exact Hr|lia].
+    + apply HWr. apply nth_In. lia.
+Qed.
+
+Lemma direct_map_length (x : list (list R)) w b : length (direct_map RN x w b) = length x.
+Proof. apply map_length. Qed.
+(* LinearDirect.forward = x * w + b *)
+Theorem direct_forward_spec (c : direct RN) (x out : tensor RN) :
+  let n := prodn (r_shape RN c) in let B := r_B RN c in
+  direct_forward RN c x = Ok out ->
+  length (tdata x) = (B * n)%nat -> length (r_w RN c) = n ->
+  (forall bv, r_b RN c = Some bv -> length bv = n) -> (0 < n)%nat ->
+  tshape out = B :: r_shape RN c /\ length (tdata out) = (B * n)%nat /\
+  forall r o, (r < B)%nat -> (o < n)%nat ->
+    nth (r * n + o) (tdata out) 0 = nth (r * n + o) (tdata x) 0 * nth o (r_w RN c) 0 + bias_at (r_b RN c) o.
+Proof.
+  intros n B Hf Hx Hw Hb Hn. unfold direct_forward in Hf. fold n in Hf.
+  destruct (tshape x) as [|b0 rest]; [discriminate|].
+  destruct ((b0 =? r_B RN c) && (prodn rest =? n)) eqn:E; simpl in Hf; [|discriminate].
+  apply andb_true_iff in E. destruct E as [E1 _]. apply Nat.eqb_eq in E1. fold B in E1. subst b0.
+  injection Hf as <-. simpl tshape. simpl tdata.
+  set (cur := chunk n B _).
+  assert (Hrowx : forall r, (r < B)%nat -> length (nth r cur []) = n).
+  { intros r Hr. unfold cur. apply chunk_row_length; [exact Hr|lia]. }
+  assert (Hrows : forall row, In row (direct_map RN cur (r_w RN c) (r_b RN c)) -> length row = n).
+  { intros row Hin. unfold direct_map in Hin. apply in_map_iff in Hin. destruct Hin as [xr [<- Hxr]].
+    apply (In_nth _ _ []) in Hxr. destruct Hxr as [r [Hr <-]]. unfold cur in Hr. rewrite chunk_length in Hr.
+    pose proof (Hrowx r Hr) as Hlx.
+    destruct (r_b RN c) as [bv|]; [pose proof (Hb bv eq_refl) as Hlb|]; rn_simpl; rewrite ?map2_length; lia. }
+  rn_simpl. split; [|split].
+  - unfold view_shape. fold n. rewrite Nat.div_mul by lia. reflexivity.
+  - rewrite (concat_length_uniform _ n Hrows), direct_map_length. unfold cur. rewrite chunk_length. reflexivity.
+  - intros r o Hr Ho.
+    rewrite (concat_nth_uniform _ n) by (try assumption; rewrite direct_map_length; unfold cur; rewrite chunk_length; exact Hr).
+    unfold direct_map. rewrite (nth_map_lt _ _ _ []) by (unfold cur; rewrite chunk_length; exact Hr).
+    assert (Hx' : nth o (nth r cur []) 0 = nth (r * n + o) (tdata x) 0).
+    { unfold cur. apply chunk_nth_nth; assumption. }
+    pose proof (Hrowx r Hr) as Hlx.
+    destruct (r_b RN c) as [bv|]; simpl bias_at.
+    + pose proof (Hb bv eq_refl) as Hlb. rn_simpl.
+      rewrite (map2_nth _ _ _ _ 0 0) by (rewrite ?map2_length; lia).
+      rewrite (map2_nth _ _ _ _ 0 0) by lia.
+      rewrite Hx'. reflexivity.
+    + rewrite (map2_nth _ _ _ _ 0 0) by lia.
+      rewrite Hx'. rn_simpl. lra.
 Qed.
